@@ -2,7 +2,8 @@
    the closed forms that C12 proved for the sync readers under every delivery. *)
 From Coq Require Import List NArith Arith Bool Lia.
 From NV Require Import Io.Source Io.ReadExact Io.ReadExactProofs Io.BufReader Io.BufReaderProofs
-  Io.FastaScan Io.FastaScanProofs Io.FastqRead Io.FastqReadProofs Io.Run Io.RunProofs.
+  Io.FastaScan Io.FastaScanProofs Io.FastqRead Io.FastqReadProofs Io.HeaderRead Io.HeaderReadProofs
+  Io.Run Io.RunProofs.
 From NV Require Import Async.ReadExact Async.ReadExactProofs Async.Lines.
 From NV Require Fasta.Layout Fasta.Fastq.
 Import ListNotations.
@@ -643,3 +644,56 @@ Theorem async_fasta_bol_cr_refuted : exists data,
   snd (fst (fst (a_read_sequence aread 8 ab_fuel false (ab_start data []))))
   <> snd (fst (run_read_sequence 8 (mkSource data []))).
 Proof. exists [13; 65; 10]%N. vm_compute. discriminate. Qed.
+
+(* ---- sam / vcf header adapter: for every prefix, data, poll script and capacity the raw header
+   lines and the position where the header ends are the closed form hdr_closed = the sync adapter's *)
+Theorem async_header_lines_closed : forall prefix cap codes data, 1 <= cap ->
+  async_header_case prefix cap codes data
+  = (fst (hdr_closed (Datatypes.S (length data)) prefix data), UOk,
+     length data - length (snd (hdr_closed (Datatypes.S (length data)) prefix data))).
+Proof.
+  intros prefix cap codes data Hcap. unfold async_header_case.
+  destruct (h_raw_lines_spec aread rep_a aread_simulates cap Hcap prefix (Datatypes.S (length data))
+              (ab_fuel (ab_start data codes)) true (ab_start data codes) data 0
+              (rep_a_buf_start data codes) ltac:(lia) (ab_fuel_ok _ _ _ (rep_a_buf_start data codes))
+              (or_introl eq_refl)) as [st' [m' [e [E [HR _]]]]].
+  rewrite E. rewrite (ab_left_ok st' _ m' HR). reflexivity.
+Qed.
+
+Theorem async_header_lines_equal_sync : forall prefix cap cap' codes sc data, 1 <= cap -> 1 <= cap' ->
+  fst (fst (async_header_case prefix cap codes data))
+  = fst (fst (fst (fst (run_header prefix cap' (mkSource data sc))))).
+Proof.
+  intros prefix cap cap' codes sc data Hcap Hcap'. rewrite (async_header_lines_closed prefix cap codes data Hcap).
+  unfold run_header. cbn [s_data].
+  destruct (run_header_lines_spec prefix data sc cap' Hcap') as [st' [m' [e [E _]]]]. rewrite E.
+  destruct (read_until_all cap' (Datatypes.S (length data)) st') as [ls st2]. reflexivity.
+Qed.
+
+(* ---- the read_line helper shared (textually) by the async sam / vcf / fasta / fastq / gff readers
+   (fasta read_definition and sam read_record_buf are this + a pure parser): for every data, poll
+   script and capacity it returns the byte count and the stripped first line, and leaves the source
+   right after that line -- exactly like the sync helper under every delivery *)
+Theorem async_read_line_closed : forall cap codes data, 1 <= cap ->
+  exists st', read_line aread cap (ab_fuel (ab_start data codes)) (ab_start data codes)
+              = (length (take_line LF data), strip_eol (take_line LF data), UOk, st')
+    /\ ab_left st' = length data - length (take_line LF data).
+Proof.
+  intros cap codes data Hcap.
+  destruct (read_line_spec aread rep_a aread_simulates cap Hcap (ab_fuel (ab_start data codes))
+              (ab_start data codes) data 0 (rep_a_buf_start data codes)
+              (ab_fuel_ok _ _ _ (rep_a_buf_start data codes))) as [st' [m' [E [HR _]]]].
+  exists st'. split; [exact E|]. rewrite (ab_left_ok st' _ m' HR). apply skipn_length.
+Qed.
+
+Theorem async_read_line_equals_sync : forall cap cap' codes sc data, 1 <= cap -> 1 <= cap' ->
+  fst (read_line aread cap (ab_fuel (ab_start data codes)) (ab_start data codes))
+  = fst (read_line src_read cap' (sb_fuel ([], mkSource data sc)) ([], mkSource data sc)).
+Proof.
+  intros cap cap' codes sc data Hcap Hcap'.
+  destruct (async_read_line_closed cap codes data Hcap) as [st' [E _]]. rewrite E.
+  destruct (read_line_spec src_read rep_src src_simulates cap' Hcap' (sb_fuel ([], mkSource data sc))
+              ([], mkSource data sc) data (n_interrupted sc) (rep_src_buf_start data sc)
+              (sb_fuel_ok _ _ _ (rep_src_buf_start data sc))) as [st2 [m2 [E2 _]]].
+  rewrite E2. reflexivity.
+Qed.
